@@ -240,6 +240,18 @@ impl Sut {
         override_file_content!(dbm, file_id, content.map(|c| c.into()));
     }
 
+    /// Compiler flags (which an IDE or build tool changes like a project setting).
+    pub fn set_flag(&mut self, which: u8, value: bool) {
+        use cairo_lang_filesystem::flag::{Flag, FlagsGroup};
+        use cairo_lang_filesystem::ids::FlagLongId;
+        let (name, flag) = match which % 3 {
+            0 => (Flag::ADD_WITHDRAW_GAS, Flag::AddWithdrawGas(value)),
+            1 => (Flag::PANIC_BACKTRACE, Flag::PanicBacktrace(value)),
+            _ => (Flag::UNSAFE_PANIC, Flag::UnsafePanic(value)),
+        };
+        self.db.set_flag(FlagLongId(name.into()), Some(flag));
+    }
+
     pub fn crate_ids<'db>(&self, db: &'db RootDatabase) -> Vec<CrateId<'db>> {
         CrateInput::into_crate_ids(db, self.main.clone())
     }
